@@ -19,8 +19,8 @@ This group adds what was still hand-written between them and the transition func
   `send_res_recv_req` (remaining time, frame test), `_deactivate` (answer selection), `activate` (`acm`).
 
 `Lemmas/FnBridgeDepSm.lean` rebuilds the transition functions of `Model/NfcDep.lean` (`reqAttention`, `reqRetrans`,
-`nakCheck`, `sendDepLoop`, `rtoxLoop`, `transact`, `sendLoop`, `recvLoop`, `exchange`, `deactivate`, `tSendChunk`, `tRecv`,
-`tAccept`) from regenerated pieces of the groups DepSm and DepPdu only; `Props/FnBridgeDepSm.lean` proves them equal to the
+`nakCheck`, `sendDepLoop`, `sendDep`, `rtoxLoop`, `transact`, `sendLoop`, `recvLoop`, `exchange`, `deactivate`, `tSendChunk`,
+`tRecv`, `tAccept`, `tRx.tRxActive`, `tRx`) from regenerated pieces of the groups DepSm, DepPdu and Dep only; `Props/FnBridgeDepSm.lean` proves them equal to the
 model functions.  Hand-written remain: the control skeleton (which exception class leads to which recovery:
 `except TimeoutError` -> attention, `except TransmissionError` -> retransmission, `except CommunicationError: continue`),
 the air (`xfer`) and the reading of a PDU record as the model's `Pdu`.
